@@ -93,6 +93,14 @@ func New(prop, level string) *Run {
 		knownSeen:   map[string]string{},
 		Extra:       map[string]interface{}{}, Exhaustive: true}
 	r.loadKnown()
+	if r.ReplayPath == "" && !IsWorker() && os.Getenv("VERIF_NO_EVIDENCE") == "" {
+		// replay artefacts of earlier runs of this check are stale
+		if old, err := filepath.Glob(filepath.Join(Root(), "replays", prop+"-*.json")); err == nil {
+			for _, f := range old {
+				os.Remove(f)
+			}
+		}
+	}
 	return r
 }
 
